@@ -41,6 +41,16 @@ func (f *Frame) enterLoop(li *loopInfo, b *ssa.BasicBlock, preds []*ssa.BasicBlo
 		ctx := f.specCtx(heaps[pi], env)
 		ctx.locals = true
 		ctx.block = b
+		if gs := f.loopGhosts(li.n); len(gs) > 0 {
+			// ghost variables start at their initial value (the name inside Init is an arbitrary value)
+			ctx = ctx.with(nil)
+			for _, g := range gs {
+				_, srt := ctx.resolveType(g.Sort)
+				ctx.binds[g.Name] = Val{S: srt, E: vc.fresh(f.prefix+"ghost0 "+g.Name, srt)}
+				iv := ctx.eval(g.Init)
+				ctx.binds[g.Name] = Val{S: srt, E: vc.define(f.prefix+"ghostinit "+g.Name, srt, iv.E)}
+			}
+		}
 		for k, inv := range invs {
 			name := f.callPath + fmt.Sprintf("inv.entry.%d.%s", li.n, clauseName(inv, k))
 			if len(preds) > 1 {
@@ -71,6 +81,11 @@ func (f *Frame) enterLoop(li *loopInfo, b *ssa.BasicBlock, preds []*ssa.BasicBlo
 		if phi.Comment == "rangeindex" {
 			vc.assume(implies(reach, app(">=", f.env[phi].E, "(- 1)")))
 		}
+	}
+	// ghost variables: an arbitrary value constrained by the invariants, visible from here on
+	for _, g := range f.loopGhosts(li.n) {
+		_, srt := f.specCtx(heap, nil).resolveType(g.Sort)
+		f.lets[g.Name] = Val{S: srt, E: vc.fresh(f.prefix+"ghost "+g.Name, srt)}
 	}
 	// 3. assume invariants
 	li.hdrHeap = heap.clone()
@@ -107,6 +122,13 @@ func clauseProps(c Clause, def []string) []string {
 	return def
 }
 
+func (f *Frame) loopGhosts(n int) []GhostVar {
+	if f.ct == nil || !f.top {
+		return nil
+	}
+	return f.ct.LoopGhost[n]
+}
+
 func (f *Frame) loopInvs(n int) []Clause {
 	if f.ct == nil {
 		return nil
@@ -132,6 +154,15 @@ func (f *Frame) backEdge(li *loopInfo, latch *ssa.BasicBlock) {
 	ctx := f.specCtx(f.end[latch].heap, env)
 	ctx.locals = true
 	ctx.block = li.header
+	if gs := f.loopGhosts(li.n); len(gs) > 0 {
+		// the back edge updates the ghost variables (simultaneously, from the values at the header)
+		nb := map[string]Val{}
+		for _, g := range gs {
+			nv := ctx.eval(g.Next)
+			nb[g.Name] = Val{S: nv.S, E: vc.define(f.prefix+"ghostnext "+g.Name, nv.S, nv.E), T: nv.T}
+		}
+		ctx = ctx.with(nb)
+	}
 	suffix := ""
 	if len(li.latches) > 1 {
 		for k, l := range li.latches {
